@@ -129,6 +129,9 @@ func (r *runner) emit(line map[string]interface{}) {
 	r.omx.Unlock()
 }
 
+// emitLocked is emit for callers that hold the controller's lock (hook callbacks).
+func (r *runner) emitLocked(line map[string]interface{}) { r.emit(line) }
+
 func lname(l int) string { return fmt.Sprintf("@leader.%d", l) }
 
 func (r *runner) dbopts(dir string) *zenodb.DBOpts {
@@ -365,6 +368,7 @@ func (r *runner) connect(f *fnode, l int) error {
 		ok := lk.up && lk.gen == gen
 		lk.mx.Unlock()
 		if !ok {
+			r.emit(map[string]interface{}{"a": "Ev", "e": "reject", "l": l, "f": f.name, "off": zenodb.VerifOffset(off), "gen": gen})
 			return fmt.Errorf("link down")
 		}
 		err := insert(append([]byte(nil), data...), off, l)
@@ -374,7 +378,10 @@ func (r *runner) connect(f *fnode, l int) error {
 		f.mx.Lock()
 		fo.EarliestOffset = off
 		f.mx.Unlock()
-		r.ctl.Locked(func() { lk.delivered++ })
+		r.ctl.Locked(func() {
+			lk.delivered++
+			r.emitLocked(map[string]interface{}{"a": "Ev", "e": "deliver", "l": l, "f": f.name, "off": zenodb.VerifOffset(off), "gen": gen})
+		})
 		return nil
 	})
 	// the leader has taken the follower in when its bookkeeping reports the join
@@ -815,6 +822,7 @@ func (r *runner) run(sc *Scenario) {
 			fmt.Sscanf(leader, "@leader.%d", &l)
 			key := fmt.Sprintf("%d/f%d_%d", l, f.Partition, f.ID)
 			r.joined[key]++
+			r.emitLocked(map[string]interface{}{"a": "Ev", "e": "join", "l": l, "f": fmt.Sprintf("f%d_%d", f.Partition, f.ID), "t": table, "off": off, "earliest": earliest})
 			// the reader restarts: what the leader has seen and whom it included counts from here
 			r.lastSeen[l] = 0
 			r.included[key] = 0
@@ -838,11 +846,19 @@ func (r *runner) run(sc *Scenario) {
 			if idx > r.lastSeen[l] {
 				r.lastSeen[l] = idx
 			}
+			{
+				var inc []string
+				for _, fid := range included {
+					inc = append(inc, fmt.Sprintf("f%d_%d", fid.Partition, fid.ID))
+				}
+				r.emitLocked(map[string]interface{}{"a": "Ev", "e": "entry", "l": l, "i": idx, "off": off, "incl": inc})
+			}
 			for _, fid := range included {
 				r.included[fmt.Sprintf("%d/f%d_%d", l, fid.Partition, fid.ID)]++
 			}
 		}
 	})
+	r.ctl.Locked(func() { r.ctl.FollowTables = len(sc.Tables) })
 	r.emit(map[string]interface{}{"a": "Reset", "scn": sc.Scn})
 	fail := func(i int, c *Cmd, err error) {
 		r.emit(map[string]interface{}{"a": "HarnessError", "scn": sc.Scn, "cmd": i, "op": c.A, "err": err.Error()})
